@@ -11,7 +11,9 @@ PROP = {'drive': ['ShapeSpec'],
                        'C06_valuerecord_exact',
                        'C06_anchor_exact',
                        'C06_engine_eq_spec_simple',
-                       'C06_engine_eq_spec_ctx_partial'],
+                       'C06_engine_eq_spec_ctx_partial',
+                       'C06_engine_eq_spec',
+                       'C06_engine_eq_spec_ctx_full_holds'],
  'areas': [('shapespec', 30000, 150000)],
  'harness_files': ['area_shape.go', 'area_shapespec.go'],
  'rule': 'distinct case lines (lookup list, GDEF, lookup indices, one glyph sequence; or lookup list, alphabet, '
@@ -29,19 +31,17 @@ PROP = {'drive': ['ShapeSpec'],
              'exact); engine model = reference for every lookup list WITHOUT contextual subtables '
              '(C06_engine_eq_spec_simple: GSUB 1.1 1.2 2.1 3.1 4.1 8.1, GPOS 1.1 1.2 2.1 2.2 4.1 6.1, all '
              'flags, all GDEF data, all lookup orders, all sequences, wherever the reference is defined)',
-             'PROVED for all inputs (C06_engine_eq_spec_ctx_partial): engine model = reference for contextual and '
-             'chained contextual lookups of all six formats (mixed with any non-contextual subtables at top level) '
-             'with ONE LEVEL OF NESTING, i.e. whose nested lookups are not contextual themselves: nested single / '
-             'alternate / reverse-chaining substitution, nested multiple substitution (insertions, fixStackInsert '
-             '<-> tag inheritance), nested ligature substitution inside the window (deletions, fixStackMerge <-> the '
-             'ligature takes the tags of its first component), nested single and pair adjustment, nested mark '
-             'attachment; the proof is the simulation stack entry (positions, actions, end position) <-> tags',
-             'NOT PROVED, bounded-checked only (C06_engine_eq_spec_ctx_full is a Prop definition, no theorem): '
-             'nested lookups that are contextual themselves (two or more levels of nesting, stack depth >= 2).  '
-             'There the tie is Go = reference on generated cases (the repository test cases 2_13-2_19, 3_06, 3_07 '
-             'and section 4, scenario generators, chained contexts nested in a parent window, random tables) and, '
-             'in the thorough tier, exhaustive enumeration of ALL sequences of length <= 6 over 4-glyph alphabets '
-             'for about one generated lookup list in twelve - this is bounded checking, not a theorem',
+             'PROVED for all inputs (C06_engine_eq_spec, also stated as C06_engine_eq_spec_ctx_full_holds): engine '
+             'model = reference for EVERY lookup list - contextual and chained contextual lookups of all six formats '
+             'nested to any depth (self-referential lookups included), nested insertions (fixStackInsert <-> tag '
+             'inheritance), nested ligatures (fixStackMerge <-> the ligature takes the tags of its first component), '
+             'nested adjustments - wherever the reference is defined; C06_engine_eq_spec_simple and '
+             'C06_engine_eq_spec_ctx_partial (one level of nesting) are special cases kept as milestones.  The proof '
+             'is the simulation planned in DESIGN 8: stack entries (positions, actions, end position) <-> tags',
+             'bounded checking is no longer needed for the engine/reference equality; it remains as the DIRECT tie '
+             'Go code = reference: generated cases (repository test cases of sections 1-5, scenario generators, '
+             'random tables) and, in the thorough tier, exhaustive enumeration of all sequences of length <= 6 over '
+             '4-glyph alphabets for about one generated lookup list in twelve',
              'Defined (= the reference returns a value) excludes: malformed tables (coverage index outside its '
              'array, empty multiple-substitution sequence, context format 3 without input coverage, glyph sets '
              'with non-member entries, lookups mixing type 8 with other types, lookup or sequence index out of '
@@ -69,9 +69,9 @@ PROP = {'drive': ['ShapeSpec'],
 LEVEL = {'text': 'Proof + bounded checking: an executable reference semantics of OpenType lookup application (tag-based, '
          'no positions to repair) is written in Lean from the specification text; its clauses are theorems; the '
          'engine model of C07 is proved equal to it, for ALL tables, GDEF data, flags, lookup orders and sequences, '
-         'on lookup lists without contextual subtables and on contextual lookups (all six formats) with one level '
-         'of nesting (nested substitutions, insertions, ligatures, adjustments, mark attachment); the lookup-flag filter is proved equal to the OpenType rule. For the remaining contextual '
-         'lookups (nested lookups that are contextual themselves) the real Go code is compared with the reference on generated cases and by '
+         'on EVERY lookup list (contextual lookups of all six formats nested to any depth, nested insertions and '
+         'ligatures included) wherever the reference is defined; the lookup-flag filter is proved equal to the '
+         'OpenType rule. In addition the real Go code is compared with the reference on generated cases and by '
          'exhaustive enumeration of short sequences (bounded, reported as such).',
  'note': 'Trusted: Lean kernel + 3 standard axioms; the reference is a hand-written reading of the OpenType text; '
          'Go = engine model by the sampled correspondence of C07.',
